@@ -129,6 +129,9 @@ pub uninterp spec fn hash_spec<T>(item: T) -> u64;
 #[verifier::external_body] fn vx_hash_quality(cond: bool) ensures cond { debug_assert!(cond); }
 pub assume_specification<T: Default> [ core::mem::take::<T> ] (dest: &mut T) -> (r: T)
   ensures r == *old(dest);
+// R12b: the documented requirement "map_size must be a power of two" (asserted by `new`) is modelled as 'returns only if the condition
+// holds': a tagged POSTCONDITION (`*_validated`) instead of a precondition, so weakening or removing the check is noticed.
+#[verifier::external_body] fn vx_documented_panic(c: bool) ensures c { assert!(c); }
 pub assume_specification [ usize::is_power_of_two ] (n: usize) -> (r: bool) ensures r == exists|j: nat| j < 64 && n == pow2(j);
 pub assume_specification [ usize::trailing_zeros ] (n: usize) -> (r: u32) ensures forall|j: nat| j < 64 && n == pow2(j) ==> r == j;
 // R13
@@ -753,14 +756,22 @@ assert forall | k : T | self . val ( k ) == fval ( ks0 , vs0 , st0 , k ) by {
 
 
     // an empty table of the given power-of-two size (float leaf vx_load_threshold, R13 vx_none_vec as in resize)
-    fn new ( map_size : usize ) -> ( r : Self ) requires exists | lg : u8 | 1 <= lg <= 40 && map_size == pow2 ( lg as nat ) , ensures r . wf ( ) , r . states @ . len ( ) == map_size , r . load_threshold == map_size * 3 / 4 , r . num_active == 0 , forall | p : int | 0 <= p < r . states @ . len ( ) ==> r . states @ [ p ] == 0 , {
-let ghost lg = choose | lg : u8 | 1 <= lg <= 40 && map_size == pow2 ( lg as nat ) ;
+    fn new ( map_size : usize ) -> ( r : Self ) requires 2 <= map_size <= pow2 ( 40 ) , ensures
+/*@C07.map_new.pow2_validated*/ exists | j : nat | j < 64 && map_size == pow2 ( j ) , r . wf ( ) , r . states @ . len ( ) == map_size , r . load_threshold == map_size * 3 / 4 , r . num_active == 0 , forall | p : int | 0 <= p < r . states @ . len ( ) ==> r . states @ [ p ] == 0 , {
+vx_documented_panic ( map_size . is_power_of_two ( ) ) ;
+assert ( /*@C07.map_new.pow2_validated*/ exists | j : nat | j < 64 && map_size == pow2 ( j ) ) ;
+let ghost lgn = choose | j : nat | j < 64 && map_size == pow2 ( j ) ;
+proof {
+lemma2_to64 ( ) ;
+if lgn > 40 {
+lemma_pow2_strictly_increases ( 40 , lgn ) ;
+}
+}
+let ghost lg = lgn as u8 ;
 proof {
 lemma_fmask ( 0usize , lg ) ;
 lemma_pow2_strictly_increases ( 0 , lg as nat ) ;
-lemma2_to64 ( ) ;
 }
-assert! ( map_size . is_power_of_two ( ) ) ;
 let lg_length = map_size . trailing_zeros ( ) as u8 ;
 let load_threshold = vx_load_threshold ( map_size ) ;
 proof {
